@@ -121,6 +121,27 @@ func (pc *pathCtx) pathsOf(e ast.Expr, depth int, out map[string]bool) {
 				})
 			}
 			delete(pc.seen, obj)
+			if found && len(viaCallers) == 0 {
+				// every call site passes a constant: the parameter is a function of the call site. When its values
+				// are pairwise distinct it also determines the site (an ID built from it covers what the other
+				// constant parameters of the same call contribute)
+				if vals, allConst := constArgsOf(pc.w, pc.fi, pi); allConst {
+					distinct := true
+					seenV := map[string]bool{}
+					for _, v := range vals {
+						if seenV[v] {
+							distinct = false
+						}
+						seenV[v] = true
+					}
+					if distinct {
+						out["@site:"+pc.fi.Name] = true
+					} else {
+						out["@site:"+pc.fi.Name+"/"+obj.Name()] = true
+					}
+					return
+				}
+			}
 			if found {
 				if len(viaCallers) == 0 {
 					out[obj.Name()] = true
@@ -564,4 +585,28 @@ func contextOnly(info *types.Info, e ast.Expr) bool {
 		return ok
 	})
 	return ok && nctx > 0
+}
+
+// constArgsOf: the constant values passed for the pi-th parameter of fi at every call site of the module (ok is false
+// when some call site passes a non-constant).
+func constArgsOf(w *World, fi *FuncInfo, pi int) ([]string, bool) {
+	var vals []string
+	ok := true
+	for _, caller := range sortedFuncs(w) {
+		cinfo := caller.Pkg.TypesInfo
+		ast.Inspect(caller.Decl.Body, func(y ast.Node) bool {
+			call, isCall := y.(*ast.CallExpr)
+			if !isCall || calleeOf(cinfo, call) != fi.Obj || pi >= len(call.Args) {
+				return true
+			}
+			tv := cinfo.Types[call.Args[pi]]
+			if tv.Value == nil {
+				ok = false
+				return true
+			}
+			vals = append(vals, tv.Value.ExactString())
+			return true
+		})
+	}
+	return vals, ok && len(vals) > 0
 }
